@@ -79,7 +79,7 @@ def run(ctx):
     rep.rule("TLV-3", "own path trace = received path + own identity; a looped Announce (own identity anywhere in the received path) has no effect", floor=3)
     rep.rule("TLV-4", "library assertion on provided TLVs is not stronger than the provider contract", floor=1)
     rep.rule("TLV-5", "minimum TLV element size agrees between builder and parsers", floor=1)
-    rep.rule("TLV-6", "both daemon port tasks use the TLV forwarder alike", floor=1)
+    rep.rule("TLV-6", "both daemon port tasks use the TLV forwarder alike and empty it only when the port is not master", floor=3)
     rep.rule("TLV-7", "the forwarder never loses a TLV that does not fit yet", floor=1)
     rep.rule("TLV-8", "forwarded PATH_TRACE is skipped when the own one is appended", floor=1)
 
@@ -316,6 +316,37 @@ def run(ctx):
                     for a in x.get("args", []):
                         pass
             tasks[key.split("::")[-1]] = sorted(set(uses))
+            # polarity: the queue may be emptied only where the port is known NOT to be master (a master port still
+            # has to forward what is queued)
+
+            def rec(n, conds_):
+                for ch in hir.children(n):
+                    if not isinstance(ch, dict):
+                        continue
+                    if ch.get("k") == "if":
+                        rec(ch["cond"], conds_)
+                        rec(ch["then"], conds_ + [(ch["cond"], True)])
+                        if ch.get("els") is not None:
+                            rec(ch["els"], conds_ + [(ch["cond"], False)])
+                        continue
+                    if ch.get("k") == "mcall" and ch.get("name") == "empty" and "TlvForwarder" in (ch.get("recv_ty") or ""):
+                        okp = False
+                        for (cnd_, pol) in conds_:
+                            e = hir.strip_wrappers(cnd_)
+                            neg = False
+                            while e.get("k") == "unary" and e.get("op") in ("!", "Not"):
+                                neg = not neg
+                                e = hir.strip_wrappers(e["e"])
+                            if e.get("k") == "mcall" and e.get("name") == "is_master" and (neg == pol):
+                                okp = True
+                        if okp:
+                            rep.ok("TLV-6", key, "forwarder emptied only when not master", where=hir.where(ch))
+                        else:
+                            rep.violation("TLV-6", key, "forwarder emptied only when not master",
+                                          "the TLV forwarder is emptied where the port may be master: TLVs queued for this "
+                                          "port's next Announce are dropped", where=hir.where(ch))
+                    rec(ch, conds_)
+            rec(body, [])
     if len(tasks) == 2:
         a, b_ = tasks["port_task"], tasks["ethernet_port_task"]
         if a == b_:
